@@ -71,6 +71,29 @@ def gen_doc(g, w, rich):
     return d
 
 
+def read_only_use(g, doc):
+    """reads that must not influence what is printed afterwards (they touch defaultdict-backed slots)"""
+    for c in [doc] + list(doc.bundles):
+        for r in c.records:
+            k = g.rng.random()
+            if k < 0.3:
+                r.args
+            elif k < 0.5:
+                r.formal_attributes
+            elif k < 0.6:
+                r.label
+                r.value
+            elif k < 0.7 and hasattr(r, "get_startTime"):
+                r.get_startTime()
+                r.get_endTime()
+    if g.chance(0.3):
+        try:
+            ProvDocument().update(doc)
+            doc.flattened()
+        except Exception:
+            pass
+
+
 def run(ctx):
     g = Gen(ctx.seed * 1000003 + 6)
     fails = []
@@ -89,6 +112,8 @@ def run(ctx):
             if not rich:
                 w.provn(d)           # exact text correspondence (model printer vs real printer)
                 worlds.append(w)
+            if g.chance(0.5):
+                read_only_use(g, doc)
             try:
                 text = doc.get_provn()
             except Exception as e:  # noqa
